@@ -112,6 +112,7 @@ func checkC12(c *Check) {
 	c.Rule("C12.R3", "no replica-local state: no field of the Redis store is written outside its constructor and its methods write no package-level variable — any replica attached to the same Redis serves any session.", 2)
 	c.Rule("C12.R4", "ids do not interfere: in both stores the key of every backend access is exactly the method's session-id parameter (sweeps range over the map's own keys).", 12)
 	c.Rule("C12.R6", "sessions disappear only by RemoveSession or by expiry: every delete from the memory store's session map is RemoveSession's or is guarded by the expiry predicate alone — otherwise a later write would re-create the session with a new creation time.", 4)
+	c.Rule("C12.R7", "a write counts as a use in both stores: every successful Redis operation (writes included) re-arms the key expiry through the TTL refresher from created+absolute / now+idle, as the memory store stamps `accessed` on every operation (the rules of C10.R3).", 9)
 	c.Rule("C12.R5", "creation time is write-once (first write fixes it): as C10.R2.", 2)
 	sr, missing := getStoreRoles(P)
 	if len(missing) > 0 {
@@ -681,6 +682,8 @@ func checkC12(c *Check) {
 	}
 	c.Obl(nDel >= 3, "C12.R6", "delete-count", "-", fmt.Sprintf("%d deletes from the session map", nDel), fmt.Sprintf("only %d deletes found (floor 3)", nDel))
 
+	// ---- R7
+	refile(c, "C12.R7", func() { c10R3(c, sr) })
 	// ---- R5
 	c10R2(c, sr)
 	for _, o := range c.Obls {
